@@ -314,7 +314,7 @@ def dec_main(prop):
     if prop == "C05":
         # trait formulas take one count per group path, named after the `_`-joined path: a schema whose paths collide
         from .checks import c07
-        schemas = schemas + [c07.path_concat_schema()]
+        schemas = schemas + [c07.path_concat_schema(), S.const_block_schema()]
     cfgs = codec.std_configs(rep.tier)
     nimg = {"C02": (5, 40), "C03": (6, 40), "C05": (5, 40), "C19": (3, 12)}[prop][0 if quick else 1]
     max_stops = 40 if quick else 400
